@@ -443,7 +443,12 @@ fn explore(cfg: &Config, rep: &mut Report, wall_cap: Duration) -> Result<(), Str
     for s in r.samples.iter_mut() {
         s["config"] = cfgv.clone();
     }
-    let per = r.extras.remove("executions_by_deviations").unwrap_or(Value::Null);
+    let mut per = r.extras.remove("executions_by_deviations").unwrap_or(Value::Null);
+    if let Some(a) = per.as_array_mut() {
+        while a.last().is_some_and(|v| v.as_u64() == Some(0)) {
+            a.pop();
+        }
+    }
     let distinct = r.extras.remove("distinct_observation_traces").unwrap_or(Value::Null);
     r.extras.remove("deviation_bound");
     let execs = r.evaluations;
@@ -473,7 +478,7 @@ fn main() {
         }
     } else {
         let q = ctx.quick();
-        let big = 1usize << 20; // "unbounded": every assignment
+        let big = 96usize; // "unbounded": more than the number of choice points of any execution, i.e. every assignment
         let mut cfgs: Vec<Config> = vec![];
         // simplest first
         for n in 1..=5 {
@@ -488,8 +493,11 @@ fn main() {
         for n in 1..=5 {
             cfgs.push(Config { n, seq_calls: 1, conc_calls: 2, full_menu: false, bound: big });
         }
-        for n in 2..=(if q { 3 } else { 4 }) {
+        for n in 2..=3 {
             cfgs.push(Config { n, seq_calls: 1, conc_calls: 3, full_menu: false, bound: if q { 4 } else { big } });
+        }
+        if !q {
+            cfgs.push(Config { n: 4, seq_calls: 1, conc_calls: 3, full_menu: false, bound: 5 });
         }
         for n in 2..=5 {
             cfgs.push(Config { n, seq_calls: 1, conc_calls: 2, full_menu: true, bound: if q { 2 } else { 3 } });
@@ -507,6 +515,9 @@ fn main() {
         }
     }
     if ctx.replay.is_none() {
+        if rep.max_depth >= 96 {
+            rep.cap_hit("an execution had as many choice points as the 'every assignment' bound");
+        }
         for (name, ctr) in [
             ("call:ok-at-first-endpoint", &CALLS_OK_FIRST),
             ("call:ok-after-failover", &CALLS_OK_AFTER_FAILOVER),
@@ -524,7 +535,7 @@ fn main() {
         &ctx,
         rep,
         Spec {
-            rule: "executions of the real GrpcClient over N fake endpoints; choice points = which outstanding request to answer (concurrent phase) and the answer kind per (call, endpoint) attempt; configurations (see `configs`): sequential 3 calls, class menu {ok, unavailable, invalid-argument}, N=1..5, every assignment; sequential 2 calls, full menu (ok, 5 network kinds incl. transport error, 6 non-network kinds incl. undecodable message), N=1..2 (quick) / 1..3 (thorough), every assignment; sequential 3 calls, full menu, N=1..5, <=3 (quick) / <=4 (thorough) non-default answers; 2 concurrent calls with every interleaving of their responses + 1 follow-up call, class menu, N=1..5, every assignment; 3 concurrent calls, class menu, N=2..3 <=4 deviations (quick) / N=2..4 every assignment (thorough); 2 concurrent calls full menu N=2..5 <=2/<=3 deviations; every execution ends with a probe call in which every endpoint fails.  evaluation = one execution (distinct choice sequence of its configuration); non-trivial = at least one non-ok answer; state = distinct observation trace (attempted endpoints, answers, results); transition = one answered request; classes `exec:<set>` = set of per-call outcomes in an execution (o ok at first endpoint, f ok after fail-over, x all endpoints failed, e non-network error), `call:*` = per-call totals",
+            rule: "executions of the real GrpcClient over N fake endpoints; choice points = which outstanding request to answer (concurrent phase) and the answer kind per (call, endpoint) attempt; configurations (see `configs`): sequential 3 calls, class menu {ok, unavailable, invalid-argument}, N=1..5, every assignment; sequential 2 calls, full menu (ok, 5 network kinds incl. transport error, 6 non-network kinds incl. undecodable message), N=1..2 (quick) / 1..3 (thorough), every assignment; sequential 3 calls, full menu, N=1..5, <=3 (quick) / <=4 (thorough) non-default answers; 2 concurrent calls with every interleaving of their responses + 1 follow-up call, class menu, N=1..5, every assignment; 3 concurrent calls, class menu, N=2..3 <=4 deviations (quick) / N=2..3 every assignment and N=4 <=5 deviations (thorough); 2 concurrent calls full menu N=2..5 <=2/<=3 deviations; every execution ends with a probe call in which every endpoint fails.  evaluation = one execution (distinct choice sequence of its configuration); non-trivial = at least one non-ok answer; state = distinct observation trace (attempted endpoints, answers, results); transition = one answered request; classes `exec:<set>` = set of per-call outcomes in an execution (o ok at first endpoint, f ok after fail-over, x all endpoints failed, e non-network error), `call:*` = per-call totals",
             assumptions: &[
                 "network-class errors are the gRPC codes Unavailable, Unknown, DeadlineExceeded, Aborted and failures of the transport itself (the crate's documented classification); every other status and an undecodable response message are non-network errors",
                 "under concurrent calls 'the endpoint that succeeds becomes the first one tried next' is read as: the first endpoint tried by the next call is one of the endpoints that succeeded in the concurrent batch",
